@@ -9,3 +9,9 @@ TRUSTED = ['A1', 'A2', 'A5', 'A6', 'UF']
 
 def jobs(tier):
     return jobs_for('C06', MODULES, tier)
+
+
+def extra(tier, seed):
+    from fvverif.lean import lemma_status
+    ok, detail = lemma_status(['unique_solution', 'invariant_iterate'], rebuild=(tier == 'thorough'))
+    return [('lean lemmas unique_solution/invariant_iterate: the uniform field satisfies every row (SMT) => it is THE solution; any number of steps by iteration', ok, 'lean:' + detail)]
